@@ -1006,10 +1006,35 @@ impl Engine for C15 {
             let nops = if deep { rng.range(2, 5) as usize } else { rng.range(1, 3) as usize };
             threads.push((0..nops).map(|_| gen_op(rng, keyspace, &w)).collect::<Vec<Op>>());
         }
+        let mut prefix = prefix;
+        // a pairing of a key no verifier accepts that was handed to update() is looked up soon
+        // afterwards: a query containing exactly those pairs (and sometimes an honest one),
+        // signed by everybody who can sign
+        {
+            let mut follow: Vec<Op> = vec![];
+            for op in &prefix {
+                if let Op::Update(v) = op {
+                    if v.iter().any(|p| p.0 as usize >= NKEYS) {
+                        let mut pairs = v.clone();
+                        if rng.chance(1, 2) {
+                            pairs.extend(gen_pairs(rng, keyspace, 1, false));
+                        }
+                        let honest: Vec<Pair> = pairs.iter().copied().filter(|p| p.0 != INF).collect();
+                        follow.push(Op::Verify(Query { pairs, sig: SigSpec::Agg(honest), feed: 0 }));
+                    }
+                }
+            }
+            for f in follow {
+                if rng.chance(1, 2) || threads.is_empty() {
+                    prefix.push(f);
+                } else {
+                    threads[0].insert(0, f);
+                }
+            }
+        }
         // rarely: one long query (more pairs than any batching threshold one might
         // plausibly introduce) verified several times in the run, so that later
         // verifications find most of it cached
-        let mut prefix = prefix;
         if rng.chance(1, 50) {
             // mostly 33-70 pairs; one in three of these runs crosses 256 / 512 pairs
             let n = if rng.chance(1, 3) { *rng.pick(&[257usize, 258, 300, 513]) } else { rng.range(33, 70) as usize };
